@@ -116,13 +116,13 @@ class Iter:
 
 
 class Frm:
-    __slots__ = ("body", "env", "bb", "dest", "ret_bb", "gints", "wrap")
+    __slots__ = ("body", "env", "bb", "dest", "ret_bb", "gints", "wrap", "inst")
 
-    def __init__(self, body, env, bb=0, dest=None, ret_bb=None, gints=(), wrap=None):
-        self.body, self.env, self.bb, self.dest, self.ret_bb, self.gints, self.wrap = body, env, bb, dest, ret_bb, gints, wrap
+    def __init__(self, body, env, bb=0, dest=None, ret_bb=None, gints=(), wrap=None, inst=None):
+        self.body, self.env, self.bb, self.dest, self.ret_bb, self.gints, self.wrap, self.inst = body, env, bb, dest, ret_bb, gints, wrap, inst
 
     def clone(self):
-        return Frm(self.body, dict(self.env), self.bb, self.dest, self.ret_bb, self.gints, self.wrap)
+        return Frm(self.body, dict(self.env), self.bb, self.dest, self.ret_bb, self.gints, self.wrap, self.inst)
 
 
 class State:
@@ -221,7 +221,7 @@ class Machine:
         Ref(0, k)."""
         root = Frm(None, {k: v for k, v in enumerate(holders)})
         env = {i + 1: a for i, a in enumerate(args)}
-        st = State([root, Frm(body, env, 0, None, None, self._gints_of(body, None))])
+        st = State([root, Frm(body, env, 0, None, None, self._gints_of(body, None), None, body.rec["path"])])
         self.out = []
         work = [st]
         while work:
@@ -730,6 +730,16 @@ class Machine:
     def _call(self, s, fi, t):
         fr = s.frames[fi]
         fk = _fnkey(t.get("fn"), t)
+        # inside a generic function analysed for one instance: the callee as resolved for that instance
+        if fr.inst and t.get("fn") is not None and (t["fn"].get("res_def") is None or t["fn"].get("res_def") == t["fn"].get("def")):
+            irec = self.F.instances.get(fr.inst)
+            if irec and irec.get("expanded"):
+                for c in irec["calls"]:
+                    if c.get("bb") == fr.bb and c.get("def") and c["def"] != fk.d:
+                        nf = dict(t["fn"])
+                        nf["res_def"], nf["res_inst"] = c["def"], c.get("inst") or c["def"]
+                        fk = FnKey(nf)
+                        break
         d = fk.d
         site = (fr.body.rec["path"], fr.bb, d)
         if any(d.startswith(p) for p in PANIC_PREFIXES) and t["target"] is None:
@@ -770,7 +780,7 @@ class Machine:
             raise Stop("panic", (s.frames[fi].body.rec["path"], s.frames[fi].bb, cb.rec["path"]), "diverging callee")
         env = {i + 1: a for i, a in enumerate(args)}
         g = self._gints_of(cb, fk) or s.frames[fi].gints
-        s.frames.append(Frm(cb, env, 0, t["dest"], t["target"], g, wrap))
+        s.frames.append(Frm(cb, env, 0, t["dest"], t["target"], g, wrap, (fk.i if fk is not None else cb.rec["path"]) or cb.rec["path"]))
 
     def _uninterpreted(self, s, fi, t, fk, args, site):
         fr = s.frames[fi]
